@@ -18,6 +18,7 @@ SPEC = os.path.join(VERIF, 'spec')
 HARNESS = os.path.join(VERIF, 'harness')
 GUARD = 'ASAM_CMP_VERIF'
 NCPU = os.cpu_count() or 4
+JUDGES = int(os.environ.get('VERIF_JUDGES', min(NCPU, 12)))      # judge JVMs side by side (3 GB heap each)
 
 sys.path.insert(0, os.path.join(VERIF, 'gen'))
 import tlcdump  # noqa: E402
@@ -292,7 +293,8 @@ def judge(module, trace, tag, nchunks=None, cfg='Trace.cfg', env=None, second=No
     if good == 0:
         raise MachineryError('empty trace %s' % trace)
     if nchunks is None:
-        nchunks = max(1, min(NCPU, max(os.path.getsize(trace) // (4 << 20), good // 1500) + 1))
+        # chunks of at most ~24 MB / ~1500 events, as many as it takes; a pool of judges works through them
+        nchunks = max(1, min(600, max(os.path.getsize(trace) // (24 << 20), min(NCPU, good // 1500)) + 1))
     chunks = split_trace(trace, nchunks, tag)
     fails = []
     counts = {}
@@ -303,9 +305,9 @@ def judge(module, trace, tag, nchunks=None, cfg='Trace.cfg', env=None, second=No
         e = {'TRACE': p}
         if env:
             e.update(env)
-        return tlc(module, cfg, '%s.j%d' % (tag, i), workers=1, env=e, heap='4g') + (p,)
+        return tlc(module, cfg, '%s.j%d' % (tag, i), workers=1, env=e, heap='3g') + (p,)
 
-    with ThreadPoolExecutor(min(len(chunks), NCPU)) as ex:
+    with ThreadPoolExecutor(min(len(chunks), JUDGES)) as ex:
         results = list(ex.map(one, enumerate(chunks)))
     for logp, st, p in results:
         txt = open(logp, errors='replace').read()
